@@ -337,3 +337,6 @@ def install_shims(module):
 
     symdt.install(module)
     symstr.install(module)
+    from . import symuni
+
+    symuni.install(module)
